@@ -9,7 +9,7 @@ from . import gen
 
 def _knobs(rng, *, conc=True):
     return {
-        "mode": rng.choice(["threads", "threads", "procs", "forked", "procs", "forked", "mixed"]),
+        "mode": rng.choice(["threads", "threads", "procs", "forked", "procs", "forked", "mixed", "libpool"]),
         "fork_at": rng.choice(["spawn", "spawn", "first_run"]),
         "line_preempt": conc and rng.random() < 0.25,
         "pool": rng.choice(["serial", "sim", "sim"]),
